@@ -1,10 +1,17 @@
 //! One module per property: generator + oracle + non-triviality rule.
 use crate::engine::Ctx;
 
+pub mod c11;
+pub mod c12;
+pub mod c13;
 pub mod c16;
+pub mod statgen;
 
 pub fn run(id: &str, ctx: &mut Ctx) -> bool {
     match id {
+        "C11" => c11::run(ctx),
+        "C12" => c12::run(ctx),
+        "C13" => c13::run(ctx),
         "C16" => c16::run(ctx),
         _ => return false,
     }
